@@ -13,6 +13,9 @@ def t3(sid, f, x, a):
     got = rtcat.p_core(f["P"])
     if got != a:
         return "parse gives %s but full-backtracking reference gives %s" % (got[:160], (a or "")[:160])
+    cw = rtcat.c_vs_ref(f["C"], a)
+    if cw:
+        return cw
     return None
 
 
